@@ -62,7 +62,7 @@ def run(ctx):
                   (3, [[A, R, A], [A, A, R], [F, F, F]], 2), (2, [[A, A], ["rec0", A, R], [F, F, F]], 3)]
     for n, (cap, prog, bound) in enumerate(progs):
         trace, summ = drv(ctx, ["--cap", cap, "--prog", json.dumps(prog), "--mode", "dfs", "--bound", bound,
-                                "--runs", (1500 if bound == 1 else 400) if q else 40000, "--yield-after"], f"dfs-{n}")
+                                "--runs", (1500 if bound == 1 else 400) if q else 12000, "--yield-after"], f"dfs-{n}")
         ctx.evaluations += summ["executions"]
         recs = vp.read_ndjson(trace)
         ctx.distinct += len({tuple(r["sched"]) for r in recs if r.get("k") == "end"})
